@@ -101,9 +101,13 @@ func (env *environment) populate(root string, files map[string]string) {
 }
 
 func newEnvironment(s *Script) *environment {
-	dir, err := os.MkdirTemp("", "verif-ctl-")
-	if err != nil {
-		panic(err)
+	dir := os.Getenv("VERIF_CTL_DIR")
+	if dir == "" {
+		var err error
+		dir, err = os.MkdirTemp("", "verif-ctl-")
+		if err != nil {
+			panic(err)
+		}
 	}
 	env := &environment{j: newJournal(), script: s, dir: dir,
 		alpha: filepath.Join(dir, "alpha"), beta: filepath.Join(dir, "beta"),
